@@ -2,6 +2,8 @@ import DafRel.Props.C04
 #print axioms DafRel.Props.C04.commute_sound_partial
 #print axioms DafRel.Props.C04.commute_none_keeps
 #print axioms DafRel.Props.C04.commute_proj_dedup_unsound
+#print axioms DafRel.Props.C04.partial_join_commute_sound
+#print axioms DafRel.Props.C04.partial_join_past_sort_is_not_order_exact
 #print axioms DafRel.Props.C04.bridge_flags
 #print axioms DafRel.Props.C04.bridge_commute_methods
 #print axioms DafRel.Props.C04.bridge_partial_join
